@@ -8,6 +8,7 @@ package openflow13
 // through the vendor / bundle wrappers, which size their child several times before encoding it.
 
 import (
+	"github.com/contiv/libOpenflow/common"
 	"github.com/contiv/libOpenflow/util"
 	vr "github.com/contiv/libOpenflow/verifrt"
 	"net"
@@ -208,4 +209,24 @@ func VerifC13_ExperimenterFieldLiteral() {
 	default:
 		c13repeat(NewNXActionRegLoad2(fld))
 	}
+}
+
+// a hello without elements: written as a literal, or decoded from the bare 8-byte header an
+// OpenFlow 1.0-style peer sends
+func VerifC13_HelloWithoutElements() {
+	var h *common.Hello
+	if vr.Bool("decoded") {
+		b := []byte{4, Type_Hello, 0, 8, 0, 0, 0, 0}
+		copy(b[4:], vr.Bytes("xid", 4))
+		m, err := Parse(b)
+		if err != nil {
+			return
+		}
+		h = m.(*common.Hello)
+	} else {
+		h = new(common.Hello)
+		h.Header = NewOfp13Header()
+		h.Header.Type = Type_Hello
+	}
+	c13repeat(h)
 }
